@@ -128,7 +128,21 @@ def relevant_difference(c, mo, io):
 
 
 def known_F15_first_line(c, mo, io):
-    # the indented call is the first thing the template writes and the partial starts by calling another
-    # partial: the first line lacks W (trailing_newline starts out false)
+    # a template whose FIRST output comes from a partial call that itself begins with a partial call: the
+    # first line lacks the indentation (trailing_newline starts out false). This hits the indented call
+    # when it is first in main, and the reference rendering of p alone when p begins that way.
     import re
-    return c.get('where') == 'first' and bool(re.search(r'regs "p" "[ \t]*\{\{> ', __import__('hblib').describe_case(c['line'])))
+    from hblib import describe_case
+    d = describe_case(c['line'])
+    bodies = dict(re.findall(r'regs "(\w+)" "((?:[^"\\]|\\.)*)"', d))
+    def starts_with_partial(name):
+        b = bodies.get(name, '')
+        m = re.match(r'[ \\t]*\{\{> (\w+)\}\}', b)
+        return m.group(1) if m else None
+    firsts = ['main'] if c.get('where') == 'first' else []
+    firsts.append('p')
+    for f in firsts:
+        t = starts_with_partial(f)
+        if t and (f == 'main' and starts_with_partial(t) or f == 'p' and (starts_with_partial(t) or re.match(r'[ \\t]+\{\{> ', bodies.get('p', '')))):
+            return True
+    return False
